@@ -12,6 +12,11 @@
 3. T: real route+destination -> loopback endpoint, iobuf from 1 byte, connbuf 1..100, flush 1-50 ms,
    plain and pickle; the received byte stream is projected to line identities (pickle frames are
    decoded by CPython) and judged by TLC against spec/ConnStreamTrace.tla.
+4. G: two connection generations of one destination without spool (spec/ConnStreamGen.tla, model-checked;
+   deviation buffer_shared_across_conns rejected): the first connection's writer is held (verification
+   hooks as scheduler gates) between taking a line and writing it, the endpoint cuts that connection, the
+   relay reconnects, lines go over the new connection, the old writer is released late; the stream of the
+   new, healthy connection is judged by the same ConnStreamTrace.tla (gens = 2).
 """
 import concurrent.futures as cf
 import copy, json, os, random, sys
@@ -27,6 +32,7 @@ BW_DEVS_Q = ["n_off_by_one", "flush_drops_tail"]
 BW_DEVS_T = ["n_off_by_one", "flush_drops_tail", "no_compaction", "dup_after_partial", "bypass_nonempty"]
 CS_DEVS_Q = ["nl_first", "bypass_nonempty", "pfx_stale_long"]
 CS_DEVS_T = ["nl_first", "nl_sometimes", "no_nl", "bypass_nonempty", "n_off_by_one", "pfx_stale_long"]
+CG_DEVS = ["buffer_shared_across_conns"]
 
 
 def lens_upto(b):
@@ -65,6 +71,24 @@ def model_check(ctx):
     if not q:
         jobs.append(lambda: ctx.tlc("ConnStream", "ConnStream_live.cfg", workers=4, timeout=3000,
                                     consts=dict(B=2, Dev="", Q=1, N=3, LineLens={1, 3, 6}, Pickle=False)))
+    # two connection generations of one destination (the old generation's writer may write arbitrarily late)
+    cg = [dict(B=4, Q=2, N=3, LineLens={1, 3}), dict(B=2, Q=1, N=3, LineLens={1, 4})] if q else \
+         [dict(B=b, Q=qq, N=4, LineLens={1, b - 1, b + 1}) for b in (2, 3, 4, 5) for qq in (1, 2)]
+    for c in cg:
+        consts = dict(c, Dev="")
+        jobs.append(lambda consts=consts: ctx.tlc("ConnStreamGen", "ConnStreamGen_mc.cfg", consts=consts,
+                                                  workers=ctx.pick(2, 4), timeout=3000))
+
+    def dev_cg(d):
+        r = ctx.tlc("ConnStreamGen", "ConnStreamGen_mc.cfg", workers=2, expect_ok=False, count=False, timeout=900,
+                    consts=dict(B=4, Q=2, N=3, LineLens={1, 3}, Dev=d))
+        if r["violated"] not in ("StreamsIntact", "PendingIntact", "AtRest2"):
+            raise Machinery("deviation %s of ConnStreamGen.tla is not rejected (vacuity); log %s" % (d, r["log"]))
+        return d
+
+    for d in CG_DEVS:
+        jobs.append(lambda d=d: dev_cg(d))
+
     # non-vacuity: named deviations are rejected
     def dev_bw(d):
         r = ctx.tlc("BufWriterMC", "BufWriterMC.cfg", workers=2, expect_ok=False, count=False, timeout=900,
@@ -85,7 +109,8 @@ def model_check(ctx):
     for d in ctx.pick(CS_DEVS_Q, CS_DEVS_T):
         jobs.append(lambda d=d: dev_cs(d))
     par(jobs, ctx.pick(4, 5))
-    ctx.cov["deviations_rejected"] = dict(BufWriter=ctx.pick(BW_DEVS_Q, BW_DEVS_T), ConnStream=ctx.pick(CS_DEVS_Q, CS_DEVS_T))
+    ctx.cov["deviations_rejected"] = dict(BufWriter=ctx.pick(BW_DEVS_Q, BW_DEVS_T), ConnStream=ctx.pick(CS_DEVS_Q, CS_DEVS_T),
+                                          ConnStreamGen=CG_DEVS)
 
 
 # ------------------------------------------------------------------ 2. replay on destination.Writer
@@ -352,7 +377,7 @@ def project_run(rec):
     lines = raw.split(b"\n")[:-1]
     if len(lines) != rec["handed"]:
         raise Machinery("run %d: %d lines in the hand-off file, %d handed" % (cfg["r"], len(lines), rec["handed"]))
-    ev = [dict(ev="run", r=cfg["r"], handed=rec["handed"], mode="pickle" if cfg["pickle"] else "plain")]
+    ev = [dict(ev="run", r=cfg["r"], handed=rec["handed"], mode="pickle" if cfg["pickle"] else "plain", gens=rec.get("gens", 1))]
     ids, bad, tail = [], {}, 0
     if cfg["pickle"]:
         index = {}
@@ -405,6 +430,16 @@ def explain(block, idx, rec):
     mode = block[0]["mode"]
     cfg = rec["cfg"]
     where = "iobuf=%d connbuf=%d flush=%dms %s" % (cfg["iobuf"], cfg["connbuf"], cfg["flushms"], mode)
+    if block[0]["gens"] == 2:
+        sig, what = explain1(block, idx, rec, mode, cfg, where + (
+            ", second connection (the endpoint closed the first one while its writer held a line at %s; %d lines handed to the "
+            "new connection, old writer released after %d of them)" % (cfg["hold"], len(cfg["newlens"]), cfg["relat"] or len(cfg["newlens"]))))
+        return "regen " + sig, what
+    return explain1(block, idx, rec, mode, cfg, where)
+
+
+def explain1(block, idx, rec, mode, cfg, where):
+    e = block[idx]
     if e["ev"] == "bad":
         return ("stream-unit %s %s" % (mode, e["kind"]),
                 "%s: the endpoint received a unit that is no handed-off line (%s at byte %d: %s)" % (where, e["kind"], e["off"], e["why"]))
@@ -419,7 +454,7 @@ def explain(block, idx, rec):
                     "%s: %d handed, %d received, slow_conn=%d: lines neither received nor counted" % (where, block[0]["handed"], nrecv, e["slow"]))
         if e["tail"]:
             return ("stream-unit %s unterminated-tail" % mode, "%s: %d bytes after the last complete line/frame" % (where, e["tail"]))
-        if e["conns"] != 1:
+        if e["conns"] != block[0]["gens"]:
             return ("stream-accounting %s connection-dropped" % mode, "%s: the relay opened %d connections to a healthy endpoint" % (where, e["conns"]))
         return ("stream-accounting %s missing-not-counted" % mode,
                 "%s: %d handed, %d received, slow_conn=%d" % (where, block[0]["handed"], nrecv, e["slow"]))
@@ -450,6 +485,79 @@ def end_to_end(ctx):
         blocks.append(ev)
         nrecv += k
     return blocks, byr, nrecv
+
+
+# ------------------------------------------------------------------ 4. two connection generations
+def regen_settings(ctx):
+    rng = random.Random(ctx.seed * 15485863 + 17)
+    base = [
+        dict(iobuf=4096, connbuf=100, pickle=False, oldpre=0, oldlen=39, oldq=0, hold="hd.added", newlens=[28, 28, 30], relat=0, midflush=0),
+        dict(iobuf=256, connbuf=10, pickle=False, oldpre=1, oldlen=30, oldq=2, hold="hd.recv", newlens=[24, 40, 31, 13, 70], relat=3, midflush=0),
+        dict(iobuf=64, connbuf=10, pickle=False, oldpre=0, oldlen=13, oldq=0, hold="hd.added", newlens=[13, 5, 30, 9], relat=0, midflush=1),
+        dict(iobuf=4096, connbuf=100, pickle=True, oldpre=0, oldlen=40, oldq=1, hold="hd.added", newlens=[30, 45, 70], relat=0, midflush=0),
+        dict(iobuf=7, connbuf=3, pickle=False, oldpre=0, oldlen=5, oldq=0, hold="hd.added", newlens=[5], relat=0, midflush=0),
+        dict(iobuf=1, connbuf=1, pickle=False, oldpre=0, oldlen=5, oldq=0, hold="hd.recv", newlens=[5, 7], relat=1, midflush=0),
+        dict(iobuf=1000, connbuf=30, pickle=False, oldpre=2, oldlen=70, oldq=3, hold="hd.added", newlens=[30, 45, 70, 90, 30, 45], relat=4, midflush=2),
+    ]
+    runs = []
+    for i in range(ctx.pick(12, 60)):
+        if i < len(base):
+            c = dict(base[i])
+        else:
+            pickle = rng.random() < 0.25
+            lo = 24 if pickle else 5
+            iobuf = rng.choice([16, 64, 100, 300, 1000, 4096, 65536])
+            k = rng.randint(1, 6)
+            c = dict(iobuf=iobuf, connbuf=rng.choice([1, 3, 10, 100]), pickle=pickle, oldpre=rng.choice([0, 0, 1, 2]),
+                     oldlen=rng.choice([x for x in (5, 13, 30, 45, 70, iobuf - 1, iobuf // 2) if lo <= x <= 300]),
+                     oldq=rng.choice([0, 0, 1, 3]), hold=rng.choice(["hd.added", "hd.added", "hd.recv"]),
+                     newlens=[rng.choice([x for x in (5, 9, 13, 24, 30, 45, 70, 90) if x >= lo]) for _ in range(k)],
+                     relat=rng.choice([0, 0, rng.randint(1, k)]), midflush=rng.choice([0, 0, 0, rng.randint(1, k)]))
+        c.update(r=1000 + i, flushms=3600 * 1000)
+        runs.append(c)
+    return runs
+
+
+def regen(ctx):
+    runs = regen_settings(ctx)
+    f = ctx.write_ndjson("c05_regen_cfg.ndjson", runs)
+    res = ctx.go_test("c05", run="^TestC05Regen$", timeout=ctx.pick(900, 3000), expect_ok=False,
+                      env=dict(VERIF_C05_REGEN=f, VERIF_C05_DEADLINE_S=ctx.pick(30, 60)))
+    recs = ctx.read_ndjson("c05_regen.ndjson") if os.path.exists(os.path.join(ctx.out, "c05_regen.ndjson")) else []
+    if res["rc"] != 0:
+        if "panic:" in res["text"] or "fatal error:" in res["text"]:
+            ctx.violation("regen panic", "the relay panicked while an old connection's writer finished late", dict(tail=res["text"][-3000:]))
+            return [], {}, 0
+        raise Machinery("regen driver failed (rc=%s); log %s\n%s" % (res["rc"], res["log"], res["text"][-2000:]))
+    byr = {}
+    for r in recs:
+        if r["ev"] != "regen":
+            raise Machinery("regen run %s: a scheduling gate was not reached (%s): %s" % (r["cfg"]["r"], r.get("why"), json.dumps(r)[:400]))
+        byr[r["cfg"]["r"]] = r
+    if len(byr) != len(runs):
+        raise Machinery("regen driver recorded %d of %d runs" % (len(byr), len(runs)))
+    blocks, nrecv = [], 0
+    for r in sorted(byr):
+        ev, k = project_run(byr[r])
+        blocks.append(ev)
+        nrecv += k
+    late = sum(r["old_late_writes_noerr"] for r in byr.values())
+    if late == 0:
+        raise Machinery("vacuous regen stage: no old connection's writer completed a late write")
+    return blocks, byr, nrecv
+
+
+def selftest_regen(ctx, blocks):
+    """a third connection in a two-generation run must be rejected at the end event"""
+    flat = copy.deepcopy([e for b in blocks for e in b if b[0]["gens"] == 2])
+    idx = next((i for i, e in enumerate(flat) if e["ev"] == "end"), None)
+    if idx is None:
+        raise Machinery("self-test: no two-generation run")
+    flat[idx]["conns"] = 3
+    f = ctx.write_ndjson("c05_selftest_regen.ndjson", flat)
+    ok, matched, _ = ctx.validate_traces("ConnStreamTrace", "ConnStreamTrace.cfg", f, len(flat), 0, tag="cstselfregen")
+    if ok or matched != idx:
+        raise Machinery("binding self-test (ConnStreamTrace, regen) failed: not rejected at event %d (matched %s)" % (idx, matched))
 
 
 def validate_e2e(ctx, blocks, byr, max_rounds=8):
@@ -524,15 +632,21 @@ def run(ctx):
     ctx.log("BufWriterTrace accepted %d random call sequences (%d events)" % (ntr, nev))
 
     blocks, byr, nrecv = end_to_end(ctx)
-    if blocks:
-        validate_e2e(ctx, blocks, byr)
+    gblocks, gbyr, gnrecv = regen(ctx)
+    if blocks or gblocks:
+        validate_e2e(ctx, blocks + gblocks, {**byr, **gbyr})
     handed = sum(r["handed"] for r in byr.values())
     slow = sum(r["slow"] for r in byr.values())
     ctx.log("end to end: %d runs, %d lines handed, %d received intact, %d counted slow_conn" % (len(byr), handed, nrecv, slow))
+    ctx.log("two generations: %d runs, %d lines handed to the second connection, %d received intact, %d late writes of the old writer" % (
+        len(gbyr), sum(r["handed"] for r in gbyr.values()), gnrecv, sum(r["old_late_writes"] for r in gbyr.values())))
     if not ctx.violations:
         if nrecv == 0 or handed == 0:
             raise Machinery("vacuous end-to-end stage: nothing received")
         selftest_stream(ctx, blocks)
+        if gnrecv == 0:
+            raise Machinery("vacuous regen stage: nothing received over the second connection")
+        selftest_regen(ctx, gblocks)
         selftest_writer_trace(ctx, first_events)
         ctx.cov["binding_selftests"] = "passed"
         outdiff = [r["cfg"]["r"] for r in byr.values() if r["out"] != r["handed"] - r["slow"]]
@@ -552,6 +666,10 @@ def run(ctx):
     cov["e2e_lines_handed"] = handed
     cov["e2e_lines_received_intact"] = nrecv
     cov["e2e_lines_counted_slow_conn"] = slow
+    cov["regen_runs"] = len(gbyr)
+    cov["regen_lines_handed_to_second_conn"] = sum(r["handed"] for r in gbyr.values())
+    cov["regen_lines_received_intact"] = gnrecv
+    cov["regen_old_writer_late_writes"] = sum(r["old_late_writes"] for r in gbyr.values())
     cov["e2e_settings"] = [[r["cfg"]["iobuf"], r["cfg"]["connbuf"], r["cfg"]["flushms"], "pickle" if r["cfg"]["pickle"] else "plain"]
                            for r in list(byr.values())[:12]]
     cov["rule"] = ("distinct = distinct TLC-generated call sequences (Write lengths 1..3B / Flush, with the underlying writer's "
@@ -570,6 +688,7 @@ def run(ctx):
         "the endpoint is a loopback TCP listener that reads as fast as it can (healthy connection); hand-offs come from one goroutine through route.Dispatch",
         "quiescence = received + slow_conn delta reaches handed; the wait is given up only when none of (received, slow_conn, direction=out) has changed for 30-60 s (normal: milliseconds), which is the violation 'lines neither received nor counted'",
         "byte values in the Writer replay are the byte's sequence number mod 251",
+        "two-generation runs: the schedule (old writer held between taking a line and writing it, endpoint cut, reconnect, lines over the new connection, late release) is forced with the destination package's verification hooks used as gates only; ConnStreamGen.tla models one Writer.Write/Flush call as one step",
         "line identity = the exact line text (five base-62 digits of the hand-off number + position-dependent filler); pickle identity = (name, timestamp, value) decoded by CPython",
     ]
     cov["trusted_base"] = ["TLC", "harness/c05 driver (records only)", "checks/c05.py project_run (bytes -> line identities)",
